@@ -2,7 +2,8 @@ P = "JanetModel.Props.C07."
 THEOREMS = [P + t for t in [
     "resume_only_by_current_wait", "generation_monotone", "generation_strictly_increases", "registration_records_generation",
     "stale_forever", "stale_inert", "listener_detached_on_resume", "item_not_consumed_by_absent_waiter",
-    "sleep_not_early", "deadline_scoped", "immediate_select_give_registers_nothing",
+    "sleep_not_early", "deadline_scoped", "immediate_select_give_registers_nothing", "deadline_inert_after_body_finished",
+    "sleep_not_early_ieee", "cMs_ge_model",
     "select_give_on_stale_readers_registers_when_unchecked", "stale_writer_resumed_when_unchecked", "stale_reader_resumed_by_close_when_unchecked",
 ]]
 HAVE_DRIVER = True
